@@ -5,7 +5,7 @@
    Measurements.__init__/get_values, [get_group(s)] = get_annotation_group(s). *)
 From Coq Require Import String ZArith List Bool.
 From HD Require Import Base.Val C18_Model C18_Proofs C18_Proofs_Meas C18_Proofs_Index C18_Proofs_General C18_Proofs_History
-  C18_Proofs_Parsed C18_Proofs_Object C18_Proofs_Int32.
+  C18_Proofs_Parsed C18_Proofs_Object C18_Proofs_Int32 C18_Proofs_Finite.
 Import ListNotations.
 Open Scope Z_scope.
 
@@ -550,3 +550,55 @@ Example C18_example_int32 :
   parse_sop_guard (PDataset true None) = Ok tt /\ parse_sop_guard (PDataset true (Some false)) = Err VE.
 Proof. repeat split; vm_compute; reflexivity. Qed.
 Print Assumptions C18_example_int32.
+
+(* ---- the non-finite guard looks at the INPUT, before the shared z leaves the point data --------- *)
+(* whatever an accepted group writes - (Double)PointCoordinatesData and CommonZCoordinateValue - is finite *)
+Theorem C18_stored_words_finite : forall dbl gt gd e, encode dbl gt gd = Ok e ->
+  (forall w, In w (e_data e) -> is_finite dbl w = true) /\
+  (forall z, e_cz e = Some z -> is_finite dbl z = true).
+Proof. exact stored_words_finite. Qed.
+Print Assumptions C18_stored_words_finite.
+
+Theorem C18_reject_non_finite_z : forall dbl gt gd a r, In a gd -> In r a -> zlen r = 3 ->
+  is_finite dbl (third r) = false -> encode dbl gt gd = Err VE.
+Proof. exact reject_non_finite_z. Qed.
+Print Assumptions C18_reject_non_finite_z.
+
+(* every row carries one and the same non-finite z word (all NaN / all +inf / all -inf): refused,
+   although that column would not be part of the point data *)
+Theorem C18_reject_non_finite_shared_z : forall dbl gt gd z, concat gd <> [] ->
+  (forall a r, In a gd -> In r a -> zlen r = 3 /\ third r = z) ->
+  is_finite dbl z = false -> encode dbl gt gd = Err VE.
+Proof. exact reject_non_finite_shared_z. Qed.
+Print Assumptions C18_reject_non_finite_shared_z.
+
+(* on non-empty input that passes the shape rules: accepted <-> every word of every row is finite *)
+Theorem C18_accepted_iff_all_finite : forall dbl gt gd, gd <> [] ->
+  forallb (annot_ok dbl gt) gd = true ->
+  (exists d, (d = 2 \/ d = 3) /\ forall a r, In a gd -> In r a -> zlen r = d) ->
+  ((exists e, encode dbl gt gd = Ok e) <->
+   (forall a r w, In a gd -> In r a -> In w r -> is_finite dbl w = true)).
+Proof. exact accepted_iff_all_finite. Qed.
+Print Assumptions C18_accepted_iff_all_finite.
+
+(* a test of the would-be point data (x, y of every row) alone is strictly weaker than the guard *)
+Theorem C18_point_data_check_insufficient : exists dbl gt gd,
+  forallb (is_finite dbl) (xy_words gd) = true /\ encode dbl gt gd = Err VE /\
+  forallb (annot_ok dbl gt) gd = true.
+Proof. exact point_data_check_insufficient. Qed.
+Print Assumptions C18_point_data_check_insufficient.
+
+(* non-vacuity: a polyline and a point whose z column is all +inf (binary64) / all NaN with one payload
+   (binary32) meet the hypotheses of C18_reject_non_finite_shared_z; the same rows with a finite shared z
+   are accepted and store that z *)
+Example C18_example_non_finite_shared_z :
+  let inf64 := 9218868437227405312 in
+  let gd64 := [[[4607182418800017408; 4611686018427387904; inf64]; [4613937818241073152; 4616189618054758400; inf64]]] in
+  let gd32 := [[[1065353216; 1073741824; 2143289345]]; [[1077936128; 1082130432; 2143289345]]] in
+  let ok32 := [[[1065353216; 1073741824; 1084227584]]; [[1077936128; 1082130432; 1084227584]]] in
+  is_finite true inf64 = false /\ encode true POLYLINE gd64 = Err VE /\
+  is_finite false 2143289345 = false /\ encode false POINT gd32 = Err VE /\
+  forallb (is_finite false) (xy_words gd32) = true /\
+  encode false POINT ok32 = Ok (mkEnc false POINT 2 [1065353216; 1073741824; 1077936128; 1082130432] (Some 1084227584) None).
+Proof. repeat split; vm_compute; reflexivity. Qed.
+Print Assumptions C18_example_non_finite_shared_z.
